@@ -142,6 +142,12 @@ def conv_mtf(which):
         check('linear-in-object', bool(np.allclose(cv.conv(a * o + b * o2, h), a * cv.conv(o, h) + b * cv.conv(o2, h), **tol)))
         check('commutative', bool(np.allclose(cv.conv(o, h), cv.conv(h, o), **tol)))
         check('energy-multiplies', bool(np.isclose(cv.conv(o, h).sum(), o.sum() * h.sum())))
+        # objects held in integer or boolean containers (photon counts, masks) are the same objects
+        oi = rng.integers(0, 50, (m, n))
+        for cast in (np.int64, np.uint16, bool):
+            oc = oi.astype(cast)
+            check('integer-or-bool-object-%s' % np.dtype(cast).name, bool(np.allclose(cv.conv(oc, h), cv.conv(oc.astype(float), h), **tol)
+                                                                     and np.allclose(cv.conv(oc, h), cv.conv(h, oc), **tol)))
     elif which == 'conv-impulse':
         d = np.zeros((m, n))
         d[m // 2, n // 2] = 1
